@@ -145,6 +145,18 @@ type Value struct {
 	Fs    []Value `json:"fs,omitempty"`
 }
 
+// numOf: the number an int or dec value stands for
+func numOf(x Value) float64 {
+	if x.T == "dec" {
+		f := float64(x.M)
+		for i := 0; i < x.E; i++ {
+			f /= 10
+		}
+		return f
+	}
+	return float64(x.I)
+}
+
 func keyString(v Value) string {
 	switch v.T {
 	case "str":
@@ -252,7 +264,7 @@ func toGo(v Value) interface{} {
 		case "f32s":
 			out := make([]float32, len(v.Xs))
 			for i, x := range v.Xs {
-				out[i] = float32(x.I)
+				out[i] = float32(numOf(x))
 			}
 			return out
 		case "counters": // []Counter: struct values whose pointer-receiver method changes its receiver
@@ -278,7 +290,7 @@ func toGo(v Value) interface{} {
 		case "f64s":
 			out := make([]float64, len(v.Xs))
 			for i, x := range v.Xs {
-				out[i] = float64(x.I)
+				out[i] = numOf(x)
 			}
 			return out
 		case "strs":
